@@ -88,7 +88,7 @@ def o_sort(inp):
         order = [TYPES[n] for n in DEFAULT_ORDER]
     c0 = canon(lib)
     ids0 = mutable_ids(lib)
-    out = libgen.maybe_preuse(SortBlocksByTypeAndKeyMiddleware(**kw), inp["blocks"], same=lib).transform(lib)
+    out = libgen.maybe_preuse(libgen.construct(SortBlocksByTypeAndKeyMiddleware, kw, (inp["blocks"], inp["order"])), inp["blocks"], same=lib).transform(lib)
     cls = ["preserve" if inp["preserve"] else "flat"]
     if any(type(b).__name__ == "DuplicateBlockKeyBlock" for b in inblocks):
         cls.append("duplicate-key-block")
